@@ -5516,7 +5516,7 @@ class State:
             elif self.street is self.streets[-1]:
                 raise ValueError('A card is not shown in final showdown.')
             else:
-                raise AssertionError
+                raise ValueError('All hole cards must be shown.')
 
         for card, card_status in zip(hole_cards, hole_card_statuses):
             if not card and card_status:
